@@ -69,6 +69,7 @@ pub proof fn lemma_seen_is_concat(check: u32, ae2: bool, h: Seq<RStep>)
         assert(p.last() == h[h.len() - 2]);
     }
 }
+// @props: C04 -- any history of reads ending at end-of-data returned bytes whose CRC-32 is the declared one (or the entry is AE-2)
 pub proof fn lemma_completed_read_has_matching_crc(check: u32, ae2: bool, h: Seq<RStep>)
     requires chained(check, ae2, h), h.len() > 0, h.last().eof_ok, !ae2
     ensures crc32(concat(h)) == check
